@@ -315,6 +315,9 @@ func instance(class string, variant int) string {
 // forged writes an identity chain by hand: versions as JSON blobs, one commit each, offered through a tracking ref.
 func forgedVersion(name, login, email, avatar string, nonce int, times map[string]int) []byte {
 	m := map[string]interface{}{"version": 2, "times": times, "unix_time": 1600000000, "nonce": make([]byte, nonce)}
+	if times == nil {
+		delete(m, "times")
+	}
 	if name != "" {
 		m["name"] = name
 	}
@@ -379,6 +382,14 @@ func fieldOne(v FieldVec, variant int) string {
 		blobs = [][]byte{forgedVersion(name, login, email, avatar, nonce, map[string]int{"bugs-edit": 3}), forgedVersion(name+"2", login, email, avatar, nonce, map[string]int{"bugs-edit": 2})}
 	case "dropped":
 		blobs = [][]byte{forgedVersion(name, login, email, avatar, nonce, map[string]int{"bugs-edit": 3, "bugs-create": 2}), forgedVersion(name+"2", login, email, avatar, nonce, map[string]int{"bugs-edit": 4})}
+	case "dropped_all":
+		blobs = [][]byte{forgedVersion(name, login, email, avatar, nonce, map[string]int{"bugs-edit": 3, "bugs-create": 2}), forgedVersion(name+"2", login, email, avatar, nonce, map[string]int{})}
+	case "dropped_null":
+		blobs = [][]byte{forgedVersion(name, login, email, avatar, nonce, map[string]int{"bugs-edit": 3}), forgedVersion(name+"2", login, email, avatar, nonce, nil)}
+	case "replaced":
+		blobs = [][]byte{forgedVersion(name, login, email, avatar, nonce, map[string]int{"bugs-edit": 3}), forgedVersion(name+"2", login, email, avatar, nonce, map[string]int{"other-clock": 9})}
+	default:
+		hx.Die("unknown clock class %q", v.Clocks)
 	}
 	repo2 := repository.NewMockRepo()
 	head, id := storeChain(repo2, blobs)
